@@ -180,6 +180,35 @@ def find_guards(eng, fn):
     return out
 
 
+def callee_item_cost(eng, mc, call, ai):
+    """Per-item consumption of a callee that receives the count as argument ai: the cheapest iteration of its
+    loops bounded by that parameter (a shared item loop such as DecodeRawFaces(count, read_functor)); 0 when the
+    callee reads the stream but has no such loop (an entropy-coded block: consumption not per item); None when
+    it cannot be determined."""
+    from .sinks import _loop_conditions
+    best = None
+    for t in eng.F.targets(call):
+        cft = eng.ft.get(t.key)
+        if cft is None:
+            return None, "callee not analysed"
+        plab = ("param", ai)
+        found = False
+        for header, body, latches in t.loops():
+            bl = set()
+            for blk in _loop_conditions(t, header, body, latches):
+                for l, op, r in cft.atoms(blk.cond, True):
+                    bl |= cft.labels(l, blk.id) | cft.labels(r, blk.id)
+            if plab in bl:
+                found = True
+                c = mc.loop_iter_cost(t, header, body, latches)
+                best = c if best is None else min(best, c)
+        if not found:
+            return 0, "consumption not per item"
+    if best is None:
+        return None, "no callee body"
+    return best, "item loop in the callee"
+
+
 def justify(eng, fn, guard, mc):
     """Returns (ok, detail).  Every use of the guarded count that the passing
     edge dominates must consume >= k bytes per item."""
@@ -203,10 +232,13 @@ def justify(eng, fn, guard, mc):
             continue
         if strip_targs(n.get("fn") or "").startswith("std::"):
             continue
-        for a in n.get("args", []):
+        for ai, a in enumerate(n.get("args", [])):
             if ft.labels(a, cb) & labs and eng.call_reads_stream(n):
-                uses.append(("count passed to %s at %s (consumption not per item)" % (
-                    strip_targs(n.get("fn") or ""), fn.site(n.get("loc", ""))), 0))
+                c, how = callee_item_cost(eng, mc, n, ai)
+                if c is None:
+                    continue          # undetermined (indirect consumption): neither justifies nor refutes
+                uses.append(("count passed to %s at %s (%s)" % (
+                    strip_targs(n.get("fn") or ""), fn.site(n.get("loc", "")), how), c))
     if k <= 1:
         return True, "scale %g <= 1 byte per item (a byte size, or at least one byte per item)" % k
     if not uses:
